@@ -51,6 +51,8 @@ Theorem enumerate_refines : forall it l, Sem it l -> Sem (Enumerate it 0) (spec_
 Proof. exact Sem_enumerate. Qed.
 Print Assumptions enumerate_refines.
 
+(* skip / step: an Error output among the discarded elements is delivered (repaired in /repo ef5b457), see
+   spec_skip / spec_step in IterSpec.v; proved at full strength (sequences with error elements included) *)
 Theorem skip_refines : forall it l n, Sem it l -> Sem (Skip it n) (spec_skip n l).
 Proof. exact Sem_skip. Qed.
 Print Assumptions skip_refines.
